@@ -50,7 +50,7 @@ def convert(beh, rng, name, opts, steer=True):
         elif act == 'Stop': steps.append(dict(a='stop'))
         elif act == 'CancelRequest': steps.append(dict(a='cancel', id=str(a[0])))
         elif act == 'PushNotify': steps.append(dict(a='notify', **({'from': 'auto'} if rng.random() < 0.5 else {})))
-        elif act == 'PushCall': steps.append(dict(a='callback', c=a[0], **({'from': 'auto'} if rng.random() < 0.5 else {})))
+        elif act == 'PushCall': steps.append(dict(a='callback', c=a[0], **({'from': 'auto', 'async': bool(steer)} if rng.random() < 0.5 else {})))
         elif act == 'CbCtxEnd': steps.append(dict(a='ctxend', c=a[0]))
         elif act == 'CbTimeout': steps.append(dict(a='gate', site='srv.waitcb.lock', id=str(a[0]), soft=True))
         elif act == 'WaitStatusReturn': steps.append(dict(a='waitstatus'))
@@ -194,6 +194,8 @@ def cover_scenarios(prop, seed):
 def gen_scenarios(prop, tier, seed, nsim):
     rng = random.Random(seed * 7919 + zlib.crc32(prop.encode()) % 1000)
     _, _, simcfgs, depth = FAMILY[prop]
+    if tier != 'quick':
+        simcfgs = simcfgs + ['srv_all']     # every feature at once (simulation only): cross-feature behaviours
     scs = []
     for ci, cfg in enumerate(simcfgs):
         opts = cfg_opts(cfg)
